@@ -40,7 +40,7 @@ PROPS = {
     'C06': dict(k1s=True, k2=[('around', {'res', 'trace', 'holder'})], k1=[], k4=True),
     'C07': dict(k2=[('walk', {'res', 'holder'})], k1=['verdict', 'struct', 'forest'], k3=['substate', 'methods']),
     'C08': dict(k1s=True, k2=[('data', {'res', 'trace', 'holder'}), ('walk', {'holder', 'trace'})], k1=[], k3=['types']),
-    'C09': dict(k2=[('pair', ALL)], k1=[], direct=['pair'], k4=True),
+    'C09': dict(k2=[('pair', ALL)], k1=[], direct=['pair'], k4=True, k3=['types']),
     'C10': dict(k1s=True, names=True, k2=[('conv', {'res', 'holder', 'c'})], k1=[], k3=['types']),
     'C11': dict(names=True, k2=[('data', {'res', 'holder'}), ('abandon', {'res', 'holder'})], k1=[], k3=['types'], k4=True),
     'C12': dict(names=True, k2=[('guards', {'res'}), ('around', {'res'}), ('walk', {'res'})], k1=[], k4=True, k3=['rename']),
@@ -49,7 +49,7 @@ PROPS = {
     'C15': dict(k1s=True, k2=[('async', ALL)], k1=[], direct=['twin'], k3=['send', 'types']),
     'C16': dict(k1s=True, k2=[('walk', {'c', 'p', 'trace'}), ('refuse', {'c', 'p', 'trace'}), ('conv', {'c', 'p'}),
                               ('abandon', {'c', 'p'}), ('around', {'c', 'p'})], k1=[]),
-    'C17': dict(k2=[], k1=['struct'], k3=['nostd']),
+    'C17': dict(k2=[], k1=['struct'], k3=['nostd', 'types']),
     'C18': dict(k1s=True, k2=[('names', ALL)], k1=[], k3=['rename']),
     'C19': dict(k1s=True, k2=[('abandon', ALL), ('refuse', ALL), ('walk', {'res', 'holder'})], k1=[]),
 }
